@@ -195,7 +195,7 @@ func runC05(c *Ctx) {
 			return
 		}
 	}
-	n := c.N(150, 4000)
+	n := c.N(500, 4000)
 	nvar := c.N(5, 10)
 	base := filepath.Join(c.WorkDir, "c05")
 	type cs struct {
